@@ -16,7 +16,14 @@
 
 package pemx
 
-import "encoding/pem"
+import (
+	"bytes"
+	"encoding/pem"
+	"errors"
+	"fmt"
+)
+
+var ErrMalformedPEM = errors.New("malformed pem data")
 
 type PEMBlockCallback func(idx int, blockType string, headers map[string]string, content []byte) error
 
@@ -29,7 +36,12 @@ func ReadPEM(pemBytes []byte, callback PEMBlockCallback) error {
 	for {
 		block, next = pem.Decode(next)
 		if block == nil {
-			// no (further) PEM data
+			// no (further) PEM data. Nothing at all, or anything but white space after the last
+			// entry means the file is empty, damaged or has been read while it was being written
+			if idx == 0 || len(bytes.TrimSpace(next)) != 0 {
+				return fmt.Errorf("%w: no or malformed pem data after entry %d", ErrMalformedPEM, idx)
+			}
+
 			break
 		}
 
